@@ -47,7 +47,8 @@ pub struct Scratch {
 
 impl Scratch {
     pub fn new(tag: &str) -> Scratch {
-        let dir = PathBuf::from(format!("/verif/harness/target/scratch/{}-{}", std::process::id(), tag));
+        let root = std::env::var("VP_SCRATCH_DIR").unwrap_or_else(|_| "/verif/harness/target/scratch".to_string());
+        let dir = PathBuf::from(format!("{root}/{}-{}", std::process::id(), tag));
         let _ = std::fs::remove_dir_all(&dir);
         std::fs::create_dir_all(&dir).expect("scratch dir");
         Scratch { dir }
